@@ -38,6 +38,22 @@ fn is_deprecation_notice(d: &SourceDiag, input: &str) -> bool {
         })
 }
 
+/// the same structural rules on the metadata-only result (it is a PassResult too)
+pub fn metadata_shape(r: &cooklang::MetadataResult) -> Option<(&'static str, String)> {
+    let has_err = r.report().iter().any(|d| d.severity == Severity::Error);
+    if r.is_valid() != (r.has_output() && !has_err) {
+        return Some(("metadata_is_valid_inconsistent", format!("is_valid {} has_output {} errors {}", r.is_valid(), r.has_output(), has_err)));
+    }
+    let parse_err = r.report().iter().any(|d| d.severity == Severity::Error && d.stage == Stage::Parse);
+    if parse_err && r.has_output() {
+        return Some(("metadata_parse_error_with_output", "a parse-stage error did not suppress the metadata output".into()));
+    }
+    if !parse_err && !r.has_output() {
+        return Some(("metadata_no_output_without_parse_error", format!("metadata output missing although no parse-stage error; report {:?}", r.report().iter().map(|d| format!("{:?}/{:?} {}", d.severity, d.stage, d.message)).collect::<Vec<_>>())));
+    }
+    None
+}
+
 /// (a) a clean recipe: no error, no warning except the deprecation notice
 pub fn check_clean(ctx: &mut Ctx, ps: &mut Parsers, text: &str, ext: u32, conv: &str, what: &str) {
     let case = Case::new("clean", text, ext, conv);
@@ -50,6 +66,13 @@ pub fn check_clean(ctx: &mut Ctx, ps: &mut Parsers, text: &str, ext: u32, conv: 
     if let Some((c, m)) = result_shape(&r) {
         ctx.violation(&case, "result_shape", c, m);
         return;
+    }
+    if let Ok(mr) = crate::core::guarded(|| parser.parse_metadata(text)) {
+        if let Some((c, m)) = metadata_shape(&mr) {
+            ctx.violation(&case, "result_shape", c, m);
+            return;
+        }
+        ctx.count("metadata_shape_ok");
     }
     let mut notices = 0;
     for d in r.report().iter() {
@@ -104,6 +127,7 @@ pub const CATALOGUE: &[Entry] = &[
     e("empty_value", "@zz9{«%g»}", NONE, Err_, Parse, false),
     e("integer_too_big", "@zz9{«99999999999»/2}", NONE, Err_, Parse, false),
     e("unit_on_cookware", "#zz9{1«%kg»}", NONE, Err_, Parse, false),
+    e("unit_on_cookware_after_space", "#zz9{1« kg»}", E::ADVANCED_UNITS, Err_, Parse, false),
     e("timer_without_unit", "~{«5»}", NONE, Err_, Parse, false),
     e("timer_without_unit_named", "~zz9{«5»}", NONE, Err_, Parse, false),
     e("timer_without_duration_word", "«~zz9»", E::TIMER_REQUIRES_TIME, Err_, Parse, false),
@@ -125,6 +149,9 @@ pub const CATALOGUE: &[Entry] = &[
     e("empty_metadata_key", ">>«»: v", NONE, Err_, Parse, true),
     e("dangling_reference", "«@&zz9{}»", E::COMPONENT_MODIFIERS, Err_, Analysis, false),
     e("dangling_cookware_reference", "«#&zz9{}»", E::COMPONENT_MODIFIERS, Err_, Analysis, false),
+    e("steps_mode_undefined_ingredient", ">> [mode]: steps\nuse «@zz9{}» now\n>> [mode]: all", E::MODES, Err_, Analysis, true),
+    e("steps_mode_undefined_cookware", ">> [mode]: steps\nuse «#zz9{}» now\n>> [mode]: all", E::MODES, Err_, Analysis, true),
+    e("duplicate_ref_mode_conflicting_new", ">> [duplicate]: ref\n@zz9{} and @«&+»zz9{}\n>> [duplicate]: new", E::MODES.union(E::COMPONENT_MODIFIERS), Err_, Analysis, true),
     e("new_and_ref", "@zz9{} @«&+»zz9{}", E::COMPONENT_MODIFIERS, Err_, Analysis, false),
     e("reference_with_foreign_modifier", "@zz9{} @«&-»zz9{}", E::COMPONENT_MODIFIERS, Err_, Analysis, false),
     e("note_on_reference", "@zz9{} @&zz9{}«(note)»", E::COMPONENT_MODIFIERS, Err_, Analysis, false),
@@ -268,6 +295,13 @@ pub fn check_injection(ctx: &mut Ctx, ps: &mut Parsers, entry: &Entry, text: &st
         ctx.violation(&case, "result_shape", c, m);
         return;
     }
+    if let Ok(mr) = crate::core::guarded(|| parser.parse_metadata(text)) {
+        if let Some((c, m)) = metadata_shape(&mr) {
+            ctx.violation(&case, "result_shape", c, m);
+            return;
+        }
+        ctx.count("metadata_shape_ok");
+    }
     let touches = |d: &SourceDiag| d.labels.first().map(|(s, _)| s.start() <= hi && s.end() >= lo).unwrap_or(false);
     let matching: Vec<&SourceDiag> = r.report().iter().filter(|d| d.severity == entry.severity && d.stage == entry.stage).collect();
     let sev = if entry.severity == Severity::Error { "error" } else { "warning" };
@@ -324,6 +358,13 @@ fn front_matter_family(ctx: &mut Ctx, ps: &mut Parsers, host: &str) {
             if let Some((c, m)) = result_shape(&r) {
                 ctx.violation(&case, "result_shape", c, m);
                 continue;
+            }
+            if let Ok(mr) = crate::core::guarded(|| parser.parse_metadata(&text)) {
+                if let Some((c, m)) = metadata_shape(&mr) {
+                    ctx.violation(&case, "result_shape", c, m);
+                    continue;
+                }
+                ctx.count("metadata_shape_ok_with_analysis_error");
             }
             let errs: Vec<&SourceDiag> = r.report().iter().filter(|d| d.severity == Severity::Error && d.stage == Stage::Analysis).collect();
             if errs.is_empty() {
@@ -433,6 +474,12 @@ pub fn run(ctx: &mut Ctx) {
             match result_shape(&r) {
                 Some((c, m)) => ctx.violation(&case, "result_shape", c, m),
                 None => ctx.count(if r.is_valid() { "shape_ok_valid" } else if r.has_output() { "shape_ok_invalid_with_output" } else { "shape_ok_no_output" }),
+            }
+        }
+        if let Ok(mr) = crate::core::guarded(|| parser.parse_metadata(&case.input)) {
+            match metadata_shape(&mr) {
+                Some((c, m)) => ctx.violation(&case, "result_shape", c, m),
+                None => ctx.count("metadata_shape_ok"),
             }
         }
     }
